@@ -254,11 +254,10 @@ func (ma *ModuleAnalyzer) analyzeModuleDependencies(graph *DependencyGraph, file
 func (ma *ModuleAnalyzer) collectModuleImports(ast *parser.Node, filePath string) []*ImportInfo {
 	var imports []*ImportInfo
 
-	ma.walkNode(ast, func(node *parser.Node) bool {
+	ma.walkStatements(ast, false, func(node *parser.Node, isTypeChecking bool) {
 		switch node.Type {
 		case parser.NodeImport:
 			// Handle "import module" statements
-			isTypeChecking := ma.isInTypeCheckingBlock(node)
 
 			if len(node.Children) > 0 {
 				for _, child := range node.Children {
@@ -293,7 +292,6 @@ func (ma *ModuleAnalyzer) collectModuleImports(ast *parser.Node, filePath string
 
 		case parser.NodeImportFrom:
 			// Handle "from module import name" statements
-			isTypeChecking := ma.isInTypeCheckingBlock(node)
 			module := node.Module
 			level := ma.calculateRelativeLevel(node.Module)
 
@@ -331,7 +329,6 @@ func (ma *ModuleAnalyzer) collectModuleImports(ast *parser.Node, filePath string
 
 			imports = append(imports, imp)
 		}
-		return true
 	})
 
 	return imports
@@ -621,6 +618,39 @@ func (ma *ModuleAnalyzer) walkNode(node *parser.Node, visitor func(*parser.Node)
 	}
 }
 
+// walkStatements visits every node reachable through the statement lists of the AST
+// (Children, Body, Orelse, Handlers, Finalbody), so that imports in else, except and
+// finally blocks are seen as well. typeChecking tells the visitor whether the node lies
+// in the body of an "if TYPE_CHECKING:" block; the else branch of such a block runs at
+// runtime and is therefore not marked.
+func (ma *ModuleAnalyzer) walkStatements(node *parser.Node, typeChecking bool, visitor func(*parser.Node, bool)) {
+	if node == nil {
+		return
+	}
+	visitor(node, typeChecking)
+
+	bodyTypeChecking := typeChecking
+	if (node.Type == parser.NodeIf || node.Type == parser.NodeElifClause) && ma.isTypeCheckingCondition(node.Test) {
+		bodyTypeChecking = true
+	}
+
+	for _, child := range node.Children {
+		ma.walkStatements(child, typeChecking, visitor)
+	}
+	for _, child := range node.Body {
+		ma.walkStatements(child, bodyTypeChecking, visitor)
+	}
+	for _, child := range node.Orelse {
+		ma.walkStatements(child, typeChecking, visitor)
+	}
+	for _, child := range node.Handlers {
+		ma.walkStatements(child, typeChecking, visitor)
+	}
+	for _, child := range node.Finalbody {
+		ma.walkStatements(child, typeChecking, visitor)
+	}
+}
+
 // calculateRelativeLevel calculates the level of relative import (number of dots)
 func (ma *ModuleAnalyzer) calculateRelativeLevel(module string) int {
 	level := 0
@@ -719,22 +749,6 @@ func (ma *ModuleAnalyzer) estimateLineCount(filePath string) int {
 		return 0
 	}
 	return strings.Count(string(content), "\n") + 1
-}
-
-// isInTypeCheckingBlock checks if a node is inside a TYPE_CHECKING conditional block
-func (ma *ModuleAnalyzer) isInTypeCheckingBlock(node *parser.Node) bool {
-	// Walk up the parent chain to find if we're inside an if statement
-	current := node.Parent
-	for current != nil {
-		if current.Type == parser.NodeIf {
-			// Check if this is a TYPE_CHECKING condition
-			if ma.isTypeCheckingCondition(current.Test) {
-				return true
-			}
-		}
-		current = current.Parent
-	}
-	return false
 }
 
 // isTypeCheckingCondition checks if an expression is a TYPE_CHECKING condition
